@@ -483,7 +483,12 @@ func (s *LSpec) renderConv(b *strings.Builder, c *LConv) {
 	} else if c.Empty {
 		fmt.Fprintf(b, "%s\nvar ()\n\n", strings.Join(lines, "\n"))
 	} else {
-		fmt.Fprintf(b, "%s\nvar (\n%s    %s func%s\n%s)\n\n", strings.Join(lines, "\n"), methodDoc, c.method(0), sig0, m1)
+		names := c.method(0)
+		if c.Defect == "multiname" {
+			// one value spec declaring two conversion functions: refused ("must have one name")
+			names += ", " + c.method(0) + "Again"
+		}
+		fmt.Fprintf(b, "%s\nvar (\n%s    %s func%s\n%s)\n\n", strings.Join(lines, "\n"), methodDoc, names, sig0, m1)
 	}
 	raw, cooked := "int", "int"
 	if c.Guarded || c.ExtIn != "" {
